@@ -40,8 +40,8 @@ RECURSIVE FullN(_, _, _)
 FullN(n, pr, ts) == IF n = 0 THEN {Leaf(a) : a \in ts}
                     ELSE UNION {{Dec(pr, <<lt, rt>>) : lt \in FullN(k, pr, ts), rt \in FullN(n - 1 - k, pr, ts)} : k \in 0..(n - 1)}
 FullTrees == LET ts == TermSet(TF)  t1 == CHOOSE a \in ts : TRUE  t2 == CHOOSE a \in ts \ {t1} : TRUE
-             IN FullN(4, CHOOSE x \in PredSet(PF) : TRUE, {t1, t2})
-FSet == TreesN(NF, PredSet(PF), TermSet(TF), K) \cup (IF MODE = "reduce" /\ NG = 1 THEN CascadeTrees \cup FullTrees ELSE {})
+             IN FullN(3 + NG, CHOOSE x \in PredSet(PF) : TRUE, {t1, t2})          \* NG = 1: 4 decisions, NG = 2: 5 decisions
+FSet == TreesN(NF, PredSet(PF), TermSet(TF), K) \cup (IF MODE = "reduce" /\ NG >= 1 THEN CascadeTrees \cup FullTrees ELSE {})
 GSetAll == TreesN(NG, PredSet(PG), TermSet(TG), K)
 \* "arithdeep": deep total right operands (paths of different length below the grafted root), + and - only
 \* unbalanced total operands: one branch of the root is one level deeper than the other (both orientations), every predicate from PG
